@@ -67,7 +67,7 @@ type Contract struct {
 	WalkAt       string           // i-th key function,
 	WalkSet      Expr             // the key set (membership array) they enumerate,
 	WalkVal      Expr             // and, for maps, the stored value of key `wkey`
-	Trusted      bool // assumed (external or interface-level trusted)
+	Trusted      bool             // assumed (external or interface-level trusted)
 	Src          string
 	Swallows     []string
 	NoInline     bool
@@ -78,8 +78,8 @@ type Contract struct {
 	SetsPost     []LetDef // ghost := expr (evaluated in the post-state) after every call of this (interface) method
 	Sets         []LetDef // ghost := expr (evaluated in the pre-state) at every call site of this (interface) method
 	Counts       []string // ghost counters incremented at every call site of this (interface) method
-	PureResult   string // name of the logic function giving the first result as a function of the parameters
-	PureVerdict  string // name of the logic function giving "first error result is nil" as a function of the parameters
+	PureResult   string   // name of the logic function giving the first result as a function of the parameters
+	PureVerdict  string   // name of the logic function giving "first error result is nil" as a function of the parameters
 	used         bool
 	usedStrict   bool // used outside a declared error swallow (C03)
 }
@@ -603,8 +603,8 @@ func splitTop(s string) []string {
 
 // sexpr is a parsed s-expression: atom or list.
 type sexpr struct {
-	atom string
-	list []*sexpr
+	atom   string
+	list   []*sexpr
 	isList bool
 }
 
